@@ -228,17 +228,29 @@ def rule_castle_letters(ctx):
         ctx.check(sets.get(ch) == w, "castle:letter:%s" % ch, "'%s' makes %s Available" % (ch, w[0]), b.where(0), bad_what="castling letter '%s' sets %s (FEN: %s)" % (ch, sets.get(ch), w))
     ctx.check(set(sets) == set(want), "castle:no-extra-letters", "only K, Q, k, q grant rights", b.where(0), bad_what="letters granting rights: %s" % sorted(sets))
     # BoardBuilder::castling writes the field of the kind it is given
-    cb = ctx.body(BB + "castling")
-    csym = ctx.sym(cb)
-    table = {}
-    for bi, i, s in cb.stmts():
-        fp = fields_of(s["lhs"])
-        if len(fp) >= 2 and fp[-2] == "castling_rights":
-            for c in C.constraints_for(ix, cb, csym, bi):
-                for v in c[1]:
-                    table[v] = (fp[-1], csym.rvalue(s["rv"]))
-    ok = {k: v[0] for k, v in table.items()} == c04.KIND_FIELD and all(v[1] == ("arg", "value") for v in table.values())
-    ctx.check(ok, "BoardBuilder::castling:table", "BoardBuilder::castling(kind, value) writes the field of that kind", cb.where(0), bad_what="BoardBuilder::castling writes %s" % {k: v[0] for k, v in table.items()})
+    table, cb = castling_setter_table(ix)
+    ok = all(table.get(k) == {(f, ("arg", "value"))} for k, f in c04.KIND_FIELD.items())
+    ctx.check(ok, "BoardBuilder::castling:table", "BoardBuilder::castling(kind, value) writes `value` into the field of that kind and no other", cb.where(0),
+              bad_what="BoardBuilder::castling writes %s" % {k: sorted((f, expr_str(v) if v else None) for f, v in st) for k, st in table.items()})
+
+
+def castling_setter_table(ix, key=None):
+    """{kind: (field written, value written)} of BoardBuilder::castling(kind, value), per castling kind by per-case
+    constant propagation (the field may be selected by a match around the store or by a lookup of a reference first)."""
+    from . import cases
+    cb = ix.body(key or (BB + "castling"))
+    out = {}
+    for k in c04.KIND_FIELD:
+        run = cases.run(ix, cb, {"kind": cases.enum_val(ix, "board::ply::castling::CastlingKind", k)})
+        stores = set()
+        for p in run.paths:
+            if p.end != "return":
+                continue
+            for e in p.events:
+                if e[0] == "store" and "castling_rights." in e[2]:
+                    stores.add((e[2].split("castling_rights.")[-1], e[3]))
+        out[k] = stores if not run.overflow else {("<undecided>", None)}
+    return out, cb
 
 
 def parsed_number_of(e, arg):
@@ -396,18 +408,10 @@ def rule_setters(ctx):
         ctx.check(ok and not calls, "setter:%s" % name, "BoardBuilder::%s stores its argument in self.%s on every path and does nothing else" % (name, field), b.where(0),
                   bad_what="BoardBuilder::%s is not the plain store `self.%s = <argument>` (assignments: %s, calls: %s)" % (name, field, [(fields_of(s["lhs"]), expr_str(sym.rvalue(s["rv"]))[:40]) for _b, s in asg], calls[:4]))
     # castling(kind, value): the right named by `kind` receives `value`
-    cb = ctx.body(BB + "castling")
-    csym = ctx.sym(cb)
-    rows = {}
-    for bi, i, s in cb.stmts():
-        fp = fields_of(s["lhs"])
-        if len(fp) >= 2 and fp[-2] == "castling_rights":
-            v = mir.strip_copies(csym.rvalue(s["rv"]))
-            kinds = [next(iter(c[1])) for c in C.constraints_for(ix, cb, csym, bi) if len(c[1]) == 1 and next(iter(c[1])) in c04.KIND_FIELD]
-            rows[kinds[-1] if kinds else None] = (fp[-1], v)
-    want = {k: (f, ("arg", "value")) for k, f in c04.KIND_FIELD.items()}
-    ctx.check(rows == want, "setter:castling", "BoardBuilder::castling(kind, value) stores `value` in the right named by `kind`", cb.where(0),
-              bad_what="BoardBuilder::castling stores %s" % {k: (f, expr_str(v)) for k, (f, v) in rows.items()})
+    table, cb = castling_setter_table(ix)
+    ok = all(table.get(k) == {(f, ("arg", "value"))} for k, f in c04.KIND_FIELD.items())
+    ctx.check(ok, "setter:castling", "BoardBuilder::castling(kind, value) stores `value` in the right named by `kind`", cb.where(0),
+              bad_what="BoardBuilder::castling stores %s" % {k: sorted((f, expr_str(v) if v else None) for f, v in st) for k, st in table.items()})
 
 
 def rule_placement_walk(ctx):
